@@ -5,7 +5,7 @@ CONSTANTS AsWritten = FALSE
   MCRetryIfs = {}
   MCWarms = {}
   MCMethods = {}
-  GMethods = {"GET", "PUT", "POST", "DELETE"}
+  GMethods = {"GET", "PUT", "POST"}
   GRetryIfs = {"default", "always", "never", "err", "s5xx", "cancel"}
   GWarms = {"none", "live", "stale"}
   GFailLen = 2
